@@ -495,7 +495,8 @@ package channels
 //@   requires env != nil && ctx != nil
 //@   ensures [once] seq(ChannelEnvironment.ID, ChannelEnvironment.CleanupChannel, ChannelEnvironment.Unprotect, Context.Trigger)
 //@   ensures [release] all(ChannelEnvironment.CleanupChannel, $1 == datatransfer.ChannelID{ID: channel.TransferID, Initiator: channel.Initiator, Responder: channel.Responder})
-//@   ensures [unprotect-other] all(ChannelEnvironment.Unprotect, $1 == (channel.Initiator == ret(ChannelEnvironment.ID, 0) ? channel.Responder : channel.Initiator))
+//@   ensures [unprotect-other] all(ChannelEnvironment.Unprotect, $1 == (channel.Initiator == ret(ChannelEnvironment.ID, 0) ? channel.Responder : channel.Initiator) &&
+//@       $2 == datatransfer.ChannelID{ID: channel.TransferID, Initiator: channel.Initiator, Responder: channel.Responder}.String())
 //@   ensures [settle] all(Context.Trigger, $1 == datatransfer.CleanupComplete && len($2) == 0) && result == ret(Context.Trigger, 0)
 
 //@ lemma [entry-funcs-are-cleanup] {C09}: forall x Status :: hasEntry(x) <==> isCleanup(x)
